@@ -167,6 +167,69 @@ theorem second_moment_hermitian (M : Mat) (hM : InRange M) (n : Nat) (hm : M.row
     apply GQ.ext <;> simp <;> grind
   rw [sumN_congr n _ _ hL, sumN_congr n _ _ hR, sumN_comm]
 
+/-! ### `is_hermitian` on sparse matrices -/
+
+theorem getL_zero_of_absent (es : List (Nat × Nat × GQ)) (r c : Nat) (h : ∀ e ∈ es, ¬ (e.1 = r ∧ e.2.1 = c)) :
+    getL es r c = 0 := by
+  induction es with
+  | nil => rfl
+  | cons e rest ih =>
+    simp only [getL, List.foldr_cons]
+    rw [if_neg (h e (by simp))]
+    exact ih (fun e' he' => h e' (by simp [he']))
+
+theorem normSq_zero : GQ.normSq 0 = 0 := by simp [GQ.normSq] <;> grind
+
+theorem conj_zero : GQ.conj 0 = 0 := by apply GQ.ext <;> simp [GQ.conj]
+
+theorem gq_sub_self (a : GQ) : a - a = 0 := by apply GQ.ext <;> simp <;> grind
+
+/-- `is_hermitian(M)` says `True` exactly when every entry of `M - M†` is smaller than the tolerance -/
+theorem isHermitianMat_iff (tol : Rat) (htol : 0 < tol) (M : Mat) :
+    isHermitianMat tol M = true ↔
+      ∀ r c, GQ.normSq (M.get r c - GQ.conj (M.get c r)) < tol * tol := by
+  unfold isHermitianMat
+  rw [List.all_eq_true]
+  constructor
+  · intro h r c
+    by_cases hp : (r, c) ∈ M.entries.flatMap fun e => [(e.1, e.2.1), (e.2.1, e.1)]
+    · have := h (r, c) hp
+      simpa [GQ.isSmall] using this
+    · have h1 : M.get r c = 0 := by
+        rw [get_eq_getL]
+        apply getL_zero_of_absent
+        intro e he hrc
+        apply hp
+        simp only [List.mem_flatMap]
+        exact ⟨e, he, by simp [hrc.1, hrc.2]⟩
+      have h2 : M.get c r = 0 := by
+        rw [get_eq_getL]
+        apply getL_zero_of_absent
+        intro e he hrc
+        apply hp
+        simp only [List.mem_flatMap]
+        exact ⟨e, he, by simp [hrc.1, hrc.2]⟩
+      rw [h1, h2, conj_zero, gq_sub_self, normSq_zero]
+      exact Rat.mul_pos htol htol
+  · intro h p _
+    have := h p.1 p.2
+    simpa [GQ.isSmall] using this
+
+/-- exactly Hermitian matrices pass; when every non-zero entry of `M - M†` is at least the tolerance
+(exact regime) only they pass -/
+theorem isHermitianMat_exact (tol : Rat) (htol : 0 < tol) (M : Mat)
+    (hgap : ∀ r c, M.get r c ≠ GQ.conj (M.get c r) → tol * tol ≤ GQ.normSq (M.get r c - GQ.conj (M.get c r))) :
+    isHermitianMat tol M = true ↔ ∀ r c, M.get r c = GQ.conj (M.get c r) := by
+  rw [isHermitianMat_iff tol htol]
+  constructor
+  · intro h r c
+    by_cases he : M.get r c = GQ.conj (M.get c r)
+    · exact he
+    · exact absurd (h r c) (by have := hgap r c he; exact Rat.not_lt.mpr this)
+  · intro h r c
+    rw [h r c, gq_sub_self, normSq_zero]
+    exact Rat.mul_pos htol htol
+
 end C06
 end Proofs
 end OFV
